@@ -86,6 +86,9 @@ def space(tier):
             cases.append(("prog", acc, p, "accfg-trace-states,accfg-dedup"))
             if size < b["nodes"] or tier == "thorough":
                 cases.append(("prog", acc, p, "accfg-trace-states,accfg-dedup,accfg-config-overlap"))
+        for p in G.skeletons(acc):
+            for pl in ("accfg-trace-states,accfg-dedup", "accfg-trace-states,accfg-dedup,accfg-config-overlap", "accfg-trace-states"):
+                cases.append(("prog", acc, p, pl))
     cases += [("map", i) for i in range(len(map_space(tier)))]
     return cases
 
@@ -93,9 +96,9 @@ def space(tier):
 def _nodes(prog):
     for st in prog:
         yield st
-        if st[0] in ("FOR", "CFOR", "WHILE"):
+        if st[0] in ("FOR", "CFOR", "WHILE", "FORI"):
             yield from _nodes(st[1])
-        elif st[0] in ("IF", "IFP"):
+        elif st[0] in ("IF", "IFP", "IFR"):
             yield from _nodes(st[1])
             if st[2]:
                 yield from _nodes(st[2])
@@ -264,7 +267,12 @@ def eval_prog(r: CaseResult, acc, prog, pipeline, only=None):
         if only is not None and only != [list(map(list, loops)), list(conds)]:
             continue
         args = G.args_for(loops, conds)
-        segs, steps = expected_segments(pre, args, acc, T)
+        try:
+            segs, steps = expected_segments(pre, args, acc, T)
+        except UseBeforeDef:
+            # the accfg-level input itself is broken (a defect of an earlier pass, reported by C01/C06): not a lowering case
+            r.count("pre_ir_use_before_def")
+            continue
         r.transitions += steps
         obs.append(hash(repr(segs)))
 
